@@ -39,6 +39,7 @@ type csrCase struct {
 	IPs        []h.B
 	Extra      []extSpec
 	Password   string
+	Scribble   bool // overwrite the template right after the Create call returns
 }
 
 var passwords = []string{"111111", "p@ss word", "密码123", "a", "0123456789abcdefghijklmnopqrstuvwxyzABCDEFGHIJKLMNOPQRSTUVWXYZ+/=?", "Pässwörd-🔑"}
@@ -49,7 +50,7 @@ func csrTemplate(c csrCase) *x509.CertificateRequest {
 		SignatureAlgorithm: sigAlgFor(c.KT, c.AlgVariant),
 	}
 	if c.Kind == 0 {
-		t.DNSNames, t.EmailAddresses = c.DNS, c.Emails
+		t.DNSNames, t.EmailAddresses = cpStrings(c.DNS), cpStrings(c.Emails)
 		for _, u := range c.URIs {
 			t.URIs = append(t.URIs, mustURL(u))
 		}
@@ -81,6 +82,22 @@ func makeCSR(c csrCase) (der []byte, key crypto.Signer, tmpPub crypto.PublicKey,
 		}
 	default:
 		der, err = smx509.CreateCFCACertificateRequest(rnd, t, key, nil, c.Password)
+	}
+	if err == nil && c.Scribble {
+		snapshot := append([]byte{}, der...)
+		garbleExts(t.ExtraExtensions)
+		garbleStrings(t.DNSNames)
+		garbleStrings(t.EmailAddresses)
+		for _, ip := range t.IPAddresses {
+			fillGarbage(ip)
+		}
+		for _, l := range [][]string{t.Subject.Country, t.Subject.Organization, t.Subject.OrganizationalUnit, t.Subject.Locality, t.Subject.Province, t.Subject.StreetAddress, t.Subject.PostalCode} {
+			garbleStrings(l)
+		}
+		t.Subject.CommonName = "scribbled"
+		if !bytes.Equal(der, snapshot) {
+			err = fmt.Errorf("the request returned by the library changed when the template was overwritten afterwards")
+		}
 	}
 	return
 }
@@ -202,6 +219,7 @@ func genCSRCase(rt *rapid.T) csrCase {
 		Kind:       rapid.SampledFrom([]int{0, 0, 0, 1, 2, 3}).Draw(rt, "kind"),
 		AlgVariant: rapid.IntRange(0, 3).Draw(rt, "algvariant"),
 		Subject:    genSubject(rt, 3),
+		Scribble:   rapid.Bool().Draw(rt, "scribble"),
 	}
 	switch c.Kind {
 	case 0, 3:
@@ -248,6 +266,7 @@ type crlCase struct {
 	Entries    []crlEntrySpec
 	Extra      []extSpec
 	Deprecated bool // fill the deprecated RevokedCertificates field instead of RevokedCertificateEntries
+	Scribble   bool // overwrite the template right after CreateRevocationList returns
 }
 
 func crlTemplate(c crlCase) *x509.RevocationList {
@@ -275,9 +294,27 @@ func makeCRL(c crlCase) ([]byte, *issuer, error) {
 	if err != nil {
 		return nil, nil, err
 	}
-	der, err := smx509.CreateRevocationList(gen.NewDetReader(gen.Mix(c.Seed, 0xc71)), crlTemplate(c), iss.cert, iss.key)
+	t := crlTemplate(c)
+	der, err := smx509.CreateRevocationList(gen.NewDetReader(gen.Mix(c.Seed, 0xc71)), t, iss.cert, iss.key)
 	if err != nil {
 		return nil, nil, fmt.Errorf("CreateRevocationList refused a template of the documented domain: %v", err)
+	}
+	if c.Scribble {
+		snapshot := append([]byte{}, der...)
+		t.Number.SetInt64(0x5c71bb1e)
+		garbleExts(t.ExtraExtensions)
+		for i := range t.RevokedCertificateEntries {
+			t.RevokedCertificateEntries[i].SerialNumber.SetInt64(7)
+			garbleExts(t.RevokedCertificateEntries[i].ExtraExtensions)
+			t.RevokedCertificateEntries[i].ReasonCode = 9
+		}
+		for i := range t.RevokedCertificates {
+			t.RevokedCertificates[i].SerialNumber.SetInt64(7)
+			garbleExts(t.RevokedCertificates[i].Extensions)
+		}
+		if !bytes.Equal(der, snapshot) {
+			return nil, nil, fmt.Errorf("the revocation list returned by CreateRevocationList changed when the template was overwritten afterwards")
+		}
 	}
 	return der, iss, nil
 }
@@ -417,6 +454,7 @@ func genCRLCase(rt *rapid.T) crlCase {
 		NextDelta:  rapid.SampledFrom([]int64{0, 1, 86400, 7 * 86400, 30 * 365 * 86400}).Draw(rt, "next"),
 		TZ:         rapid.SampledFrom([]int{0, 0, 480, -330}).Draw(rt, "tz"),
 		Deprecated: rapid.IntRange(0, 4).Draw(rt, "deprecated") == 0,
+		Scribble:   rapid.Bool().Draw(rt, "scribble"),
 		Extra:      genExtras(rt, "extra", 2),
 	}
 	c.Number = genBytes(rt, "number", 0, 20)
